@@ -122,4 +122,61 @@ reads the shared `EnvState` and `env.info()`.  A history labelled with the handl
 each action: -/
 def hrun (e : REnv) (l : List (Nat × RAct)) : REnv := l.foldl (fun e x => rstep e x.2) e
 
+/-! ### the registry of environments (`ENV_MAP`) and `Store::new` on a registered environment
+
+```text
+let has_env = { env_map.read().contains_key(&full_path) };
+if !has_env { env = open(..); env_map.write().insert(full_path, EnvState { env, open_txs_count: 0,
+                  resizing: false, resize_checking: false, stores_count: 1 }); }
+else        { stores_count += 1 }          // nothing else of the EnvState is touched
+```
+`Drop for Store`: `stores_count -= 1`, the entry is removed (the environment closed) at 0. -/
+
+/-- `EnvState`: the gate state every handle of the environment shares, and `stores_count` -/
+structure EnvState where
+  gate : REnv
+  stores : Nat := 1
+deriving Repr, DecidableEq
+
+/-- `ENV_MAP`: root path (a number here) ↦ `EnvState` -/
+abbrev EnvMap := List (Nat × EnvState)
+
+def envLookup : EnvMap → Nat → Option EnvState
+  | [], _ => none
+  | (p, s) :: r, path => if p = path then some s else envLookup r path
+
+def envUpdate : EnvMap → Nat → (EnvState → EnvState) → EnvMap
+  | [], _, _ => []
+  | (p, s) :: r, path, f => if p = path then (p, f s) :: r else (p, s) :: envUpdate r path f
+
+/-- the environment part of `Store::new(root, ..)`; `mapSize` = what `open` finds on disk -/
+def storeNewEnv (m : EnvMap) (path mapSize chunk : Nat) : EnvMap :=
+  match envLookup m path with
+  | some _ => envUpdate m path fun s => { s with stores := s.stores + 1 }
+  | none => (path, { gate := rinit mapSize chunk, stores := 1 }) :: m
+
+/-- `Drop for Store` -/
+def storeDropEnv (m : EnvMap) (path : Nat) : EnvMap :=
+  match envLookup m path with
+  | some s => if s.stores ≤ 1 then m.filter (fun x => x.1 != path)
+              else envUpdate m path fun s => { s with stores := s.stores - 1 }
+  | none => m
+
+/-- run `rehandle`: a handle is opened on the registered environment `path` while `readers` read
+transactions of other threads are open; then `Store::batch()` through the NEW handle finds usage
+`used`.  `true` = the batch has to wait for the readers (deferred resize), `false` = it goes on at
+once (no resize needed, or an immediate one). -/
+def rehandleTrigger (m : EnvMap) (path used : Nat) : Bool :=
+  match envLookup (storeNewEnv m path 0 0) path with
+  | some s => match (maybeResize s.gate used).2 with
+    | .deferred _ => true
+    | _ => false
+  | none => false
+
+/-- … and the map size once the readers are gone and the waiter has run -/
+def rehandleMap (m : EnvMap) (path used : Nat) : Nat :=
+  match envLookup (storeNewEnv m path 0 0) path with
+  | some s => (settle (maybeResize s.gate used).1).mapSize
+  | none => 0
+
 end GV.Kv
